@@ -89,6 +89,7 @@ def gen_history(ctx):
 def run(ctx, model_ok):
     run_lines_independence(ctx)
     run_session_programs(ctx)
+    run_eval_then_register(ctx)
     n_hist = ctx.n(150, 6000)
     cases = []
     for _ in range(n_hist):
@@ -269,6 +270,42 @@ def run_lines_independence(ctx):
                                  "ops": [{"op": "reset"}] + [{"op": "exec", "lang": "en", "text": p} for p in prev[-40:]] + [{"op": "exec", "lang": "en", "text": ln}],
                                  "long_lived": a, "fresh": b})
             prev.append(ln)
+
+
+def run_eval_then_register(ctx):
+    """evaluations in front of a registration must not change what the registration does: calculator A evaluates some lines,
+    then registers units / a rule / a rate and evaluates probe lines; calculator B only registers and probes"""
+    rng = ctx.rng
+    for ci in range(ctx.n(60, 1500)):
+        pre = [{"op": "exec", "lang": rng.choice(["en", "en", "tr"]), "text": rng.choice([L.value_line(rng), "1 + 2", "2 km to m", "5 usd to eur", "10 kg to lb", "x = 3\nx * 2"])}
+               for _ in range(rng.randint(1, 4))]
+        w = ["zzv" + c for c in "abc"]
+        regs = [{"op": "dtype_add", "name": "famv"},
+                {"op": "dtype_item", "name": "famv", "index": 0, "format": "{value} " + w[0], "parse": ["{NUMBER:value} {TEXT:type:" + w[0] + "}"], "up": "{value} / 2", "down": "{value} * 2", "names": [w[0]]},
+                {"op": "dtype_item", "name": "famv", "index": 1, "format": "{value} " + w[1], "parse": ["{NUMBER:value} {TEXT:type:" + w[1] + "}"], "up": "{value} / 4", "down": "{value} * 4", "names": [w[1]]},
+                {"op": "dtype_item", "name": "metric-length", "index": 9, "format": "{value} Mm", "parse": ["{NUMBER:value} {TEXT:type:megameter}"], "up": "{value} / 1000", "down": "{value} * 1000", "names": ["megameter"]},
+                {"op": "rule_add", "lang": "en", "name": "rv", "kind": "const", "patterns": ["{NUMBER:a} quux"], "v": 42},
+                {"op": "rate", "cur": "try", "v": rng.choice([10.0, 33.3, 7.5])}]
+        rng.shuffle(regs[3:])
+        probes = [{"op": "exec", "lang": "en", "text": t} for t in
+                  ["10 " + w[0] + " to " + w[1], "8 " + w[1] + " to " + w[0], "3 megameter", "3 megameter to km", "7 quux", "7 quux + 1", "1 usd to try", "2 km to m", "1 + 2"]]
+        a = C.run_impl([{"op": "reset"}] + pre + regs + probes + [{"op": "reset"}])
+        b = C.run_impl([{"op": "reset"}] + regs + probes + [{"op": "reset"}])
+        ra = [canon_lines(x) for x in a[1 + len(pre) + len(regs):-1]]
+        rb = [canon_lines(x) for x in b[1 + len(regs):-1]]
+        rets_a = [x.get("ret") for x in a[1 + len(pre):1 + len(pre) + len(regs)]]
+        rets_b = [x.get("ret") for x in b[1:1 + len(regs)]]
+        ctx.seen(("eval-then-register", ci), True)
+        ctx.count("eval-then-register")
+        if rets_a != rets_b:
+            ctx.oracle_fail({"class": "registration-after-evaluation", "what": f"registrations return {rets_a} after evaluations, {rets_b} on a fresh calculator",
+                             "ops": [{"op": "reset"}] + pre + regs + [{"op": "reset"}]})
+            continue
+        for p_, x, y in zip(probes, ra, rb):
+            if x != y:
+                ctx.oracle_fail({"class": "registration-after-evaluation", "what": f"{p_['text']!r} evaluates to {x} when lines were evaluated before the registrations, to {y} otherwise",
+                                 "ops": [{"op": "reset"}] + pre + regs + [p_, {"op": "reset"}]})
+                break
 
 
 def run_session_programs(ctx):
